@@ -217,7 +217,7 @@ PROPS = {
                           "K>=2 simultaneous deviating map sites (thorough: 2 for the list report); csv/json; diff formats", models=30, mapsched=1, native_repeat=200),
                  thorough=ev("^ZZ_C08_List$", "the list report as quick with <=2 simultaneously deviating map sites", "K>=3 deviating sites", models=100, mapsched=2, native_repeat=200)),
             dict(pkg=DIFF, harness="harness/diff", shared="harness/shared", extra=[["pkg/netpol/connlist", "harness/extra_connlist"]],
-                 quick=ev("^ZZ_C08_Diff$", "diff report in txt, md, dot: 2 workloads, a policy per side whose egress ipBlock is one of two CIDRs or a pair of CIDRs (or no policy on side 2), symbolic port range per side "
+                 quick=ev("^ZZ_C08_Diff$", "diff report in txt, md, dot: 2 workloads, side 1 with one CIDR or a pair of CIDRs, side 2 with no policy, another CIDR (the block moved) or the pair, symbolic port range per side "
                           "(the solver covers equal and different connection texts); second run with the documents and the rule peers of both inputs reversed and the map schedule free at <=1 site",
                           "K>=2 deviating map sites; csv/json of the diff; larger inputs", models=30, mapsched=1, native_repeat=200),
                  thorough=ev("^ZZ_C08_Diff$", "the diff report as quick with <=2 simultaneously deviating map sites", "K>=3 deviating sites", models=100, mapsched=2, native_repeat=200)),
